@@ -256,7 +256,7 @@ def run(res, tier):
     # clause 2
     block_size_positive(facts, res)
     res.rule("C08.5 the block size is a bound, not a size: in the tree's constructor / rebuild and the sorter's split the raw block size never sizes an allocation and never enters a sum or product (it may be compared, and clamped with std::min against a quantity of the data)")
-    res.floor("C08.5", block_size_is_a_bound(facts, res), 4, "allocations / arithmetic sites")
+    res.floor("C08.5", block_size_is_a_bound(facts, res), 2, "allocations / arithmetic sites")
     res.rule("C08.4 which cells interact does not depend on where the group boundaries fall: a source cell's position in a group comes from that group's own lookup, or from a hole-free shortcut tested on that same group (rule C02.5 on the group wrapper)")
     import c02
     sub = tbf.Result("C02")
